@@ -243,7 +243,8 @@ class IfWriteHandler(AbstractWriteHandler):
 
         exits = v.out_edges()
 
-        self.decompiler.source_map_add_opcode(op.offset)
+        # An elseif header is written behind the closing brace of the block before it, not in a new line.
+        self.decompiler.source_map_add_opcode(op.offset, in_current_line=not include_newline_in_header)
         opt_space = " " if not include_newline_in_header else ""
         not_str = "" if not m.is_not else " not"
         self.decompiler.write_stmnt(
